@@ -178,15 +178,20 @@ structure BlockDataM where
   justification : Option Bytes
 deriving Repr
 
+def headerToPb : Option Val → Bytes
+  | some h => marshal goHeader h
+  | none => []
+
+/-- `AsEncodedExtrinsics`: every extrinsic SCALE-encoded as a byte string -/
+def bodyToPb : Option (List Bytes) → List Bytes
+  | some exts => exts.map (fun e => C11.encP .bytes (.bytes e))
+  | none => []
+
 /-- `blockDataToProtobuf` -/
 def BlockDataM.toPb (d : BlockDataM) : Proto.BlockData where
   hash := d.hash
-  header := match d.header with
-    | some h => marshal goHeader h
-    | none => []
-  body := match d.body with
-    | some exts => exts.map (fun e => C11.encP .bytes (.bytes e))   -- AsEncodedExtrinsics
-    | none => []
+  header := headerToPb d.header
+  body := bodyToPb d.body
   receipt := d.receipt.getD []
   messageQueue := d.messageQueue.getD []
   justification := d.justification.getD []
@@ -205,25 +210,31 @@ def bodyOfEncoded (exts : List Bytes) : Option (List Bytes) :=
 
 def optOfBytes (b : Bytes) : Option Bytes := if b = [] then none else some b
 
+/-- header field: absent, or a SCALE header (outer `none` = decoding error) -/
+def headerOfPb (b : Bytes) : Option (Option Val) :=
+  if b = [] then some none
+  else match unmarshal goHeader b with
+    | some (v, _) => some (some v)
+    | none => none
+
+def bodyOfPb (bs : List Bytes) : Option (Option (List Bytes)) :=
+  if bs = [] then some none
+  else match bodyOfEncoded bs with
+    | some b => some (some b)
+    | none => none
+
+/-- justification with the `is_empty_justification` escape -/
+def justOfPb (j : Bytes) (isEmpty : Bool) : Option Bytes :=
+  if j = [] then (if isEmpty then some [] else none) else some j
+
 /-- `protobufToBlockData` (a field that is absent and a field that is present but empty are the
     same abstract message; Go tells them apart only for inputs no encoder of this message emits) -/
 def BlockDataM.ofPb (p : Proto.BlockData) : Option BlockDataM :=
-  let hdr : Option (Option Val) :=
-    if p.header = [] then some none
-    else match unmarshal goHeader p.header with
-      | some (v, _) => some (some v)
-      | none => none
-  let bdy : Option (Option (List Bytes)) :=
-    if p.body = [] then some none
-    else match bodyOfEncoded p.body with
-      | some b => some (some b)
-      | none => none
-  match hdr, bdy with
+  match headerOfPb p.header, bodyOfPb p.body with
   | some h, some b =>
     some { hash := bytesToHash p.hash, header := h, body := b, receipt := optOfBytes p.receipt,
            messageQueue := optOfBytes p.messageQueue,
-           justification := if p.justification = [] then (if p.isEmptyJustification then some [] else none)
-                            else some p.justification }
+           justification := justOfPb p.justification p.isEmptyJustification }
   | _, _ => none
 
 def optMapM {α β : Type} (f : α → Option β) : List α → Option (List β)
